@@ -178,8 +178,23 @@ type mstate struct {
 	cb     map[string]bool // callback field non-nil decisions
 	checkRes map[ssa.Value]*Effect
 	path   *MPath
-	visited map[*ssa.BasicBlock]int
+	visited map[visitKey]int
 	depth  int
+	stack  []*frame
+}
+
+// frame: one inlined first-party helper (A3 inlines helpers that touch protocol state, depth <= 2).
+type frame struct {
+	fn      *ssa.Function
+	call    *ssa.Call
+	bind    map[*ssa.Parameter]ssa.Value
+	retBlk  *ssa.BasicBlock
+	retIdx  int
+}
+
+type visitKey struct {
+	b    *ssa.BasicBlock
+	call *ssa.Call
 }
 
 func (s *mstate) clone() *mstate {
@@ -196,10 +211,11 @@ func (s *mstate) clone() *mstate {
 	for k, v := range s.cb {
 		n.cb[k] = v
 	}
-	n.visited = map[*ssa.BasicBlock]int{}
+	n.visited = map[visitKey]int{}
 	for k, v := range s.visited {
 		n.visited[k] = v
 	}
+	n.stack = append([]*frame(nil), s.stack...)
 	np := *s.path
 	np.Conds = append([]CondRec(nil), s.path.Conds...)
 	np.Effects = make([]*Effect, len(s.path.Effects))
@@ -228,6 +244,7 @@ type modelBuilder struct {
 	readCall  *ssa.Call
 	out       []*MPath
 	problems  map[string]bool
+	pendingInline *ssa.Function
 }
 
 func (b *modelBuilder) problem(format string, args ...any) {
@@ -312,7 +329,7 @@ func buildModel(c *Ctx) *Model {
 	}
 
 	// pre-loop segment
-	pre := &mstate{st: init, excl: map[int64]bool{}, env: map[ssa.Value]constant.Value{}, cb: map[string]bool{}, checkRes: map[ssa.Value]*Effect{}, visited: map[*ssa.BasicBlock]int{}, path: &MPath{Start: init, Pkt: -2, Pos: fn.Pos()}}
+	pre := &mstate{st: init, excl: map[int64]bool{}, env: map[ssa.Value]constant.Value{}, cb: map[string]bool{}, checkRes: map[ssa.Value]*Effect{}, visited: map[visitKey]int{}, path: &MPath{Start: init, Pkt: -2, Pos: fn.Pos()}}
 	b.out = nil
 	b.walk(fn.Blocks[0], 0, pre, true)
 	if len(b.out) != 1 || b.out[0].Exit != "loop" {
@@ -330,7 +347,7 @@ func buildModel(c *Ctx) *Model {
 	for len(work) > 0 {
 		st := work[0]
 		work = work[1:]
-		s0 := &mstate{st: st, excl: map[int64]bool{}, env: map[ssa.Value]constant.Value{}, cb: map[string]bool{}, checkRes: map[ssa.Value]*Effect{}, visited: map[*ssa.BasicBlock]int{}, path: &MPath{Start: st, Pkt: -2, Pos: b.readCall.Pos()}}
+		s0 := &mstate{st: st, excl: map[int64]bool{}, env: map[ssa.Value]constant.Value{}, cb: map[string]bool{}, checkRes: map[ssa.Value]*Effect{}, visited: map[visitKey]int{}, path: &MPath{Start: st, Pkt: -2, Pos: b.readCall.Pos()}}
 		b.out = nil
 		b.walk(b.loopHead, 0, s0, false)
 		for _, p := range b.out {
@@ -393,7 +410,46 @@ func (b *modelBuilder) cbFieldOf(v ssa.Value) (string, bool) {
 	return "", false
 }
 
+// res resolves parameters of inlined helpers to the caller's values.
+func (b *modelBuilder) res(s *mstate, v ssa.Value) ssa.Value {
+	for i := 0; i < 8; i++ {
+		p, ok := v.(*ssa.Parameter)
+		if !ok {
+			if sv := strip(v); sv != v {
+				if pp, ok := sv.(*ssa.Parameter); ok {
+					p = pp
+				} else {
+					return v
+				}
+			} else {
+				return v
+			}
+		}
+		bound := false
+		for j := len(s.stack) - 1; j >= 0; j-- {
+			if s.stack[j].fn == p.Parent() {
+				if bv, ok := s.stack[j].bind[p]; ok {
+					v, bound = bv, true
+				}
+				break
+			}
+		}
+		if !bound {
+			return v
+		}
+	}
+	return v
+}
+
+func (b *modelBuilder) topCall(s *mstate) *ssa.Call {
+	if len(s.stack) == 0 {
+		return nil
+	}
+	return s.stack[len(s.stack)-1].call
+}
+
 func (b *modelBuilder) evalConst(s *mstate, v ssa.Value) (constant.Value, bool) {
+	v = b.res(s, v)
 	if c := constOf(v); c != nil && c.Value != nil {
 		return c.Value, true
 	}
@@ -429,6 +485,14 @@ func (b *modelBuilder) evalCond(s *mstate, cond ssa.Value) (bool, bool) {
 	return false, false
 }
 
+func (b *modelBuilder) resAll(s *mstate, vs []ssa.Value) []ssa.Value {
+	out := make([]ssa.Value, len(vs))
+	for i, v := range vs {
+		out[i] = b.res(s, v)
+	}
+	return out
+}
+
 func (b *modelBuilder) isPktType(v ssa.Value) bool {
 	ex, ok := strip(v).(*ssa.Extract)
 	return ok && ex.Tuple == ssa.Value(b.readCall) && ex.Index == 0
@@ -459,8 +523,9 @@ func (b *modelBuilder) walk(blk *ssa.BasicBlock, idx int, s *mstate, pre bool) {
 		return
 	}
 	if idx == 0 {
-		s.visited[blk]++
-		if s.visited[blk] > 1 {
+		vk := visitKey{blk, b.topCall(s)}
+		s.visited[vk]++
+		if s.visited[vk] > 1 {
 			b.problem("cycle inside one loop iteration at block %d of %s", blk.Index, blk.Parent().Name())
 			return
 		}
@@ -498,14 +563,33 @@ func (b *modelBuilder) walk(blk *ssa.BasicBlock, idx int, s *mstate, pre bool) {
 				b.problem("defer inside the packet loop at %s", b.c.P.Pos(x.Pos()))
 			}
 		case *ssa.Call:
-			if !b.call(x, s) {
-				return
+			ok, inlined := b.call(x, s, blk, i, pre)
+			if !ok || inlined {
+				return // abandoned, or the walk continued inside the helper (and returns here through its frames)
 			}
 		case *ssa.Return:
-			retNil := len(x.Results) == 1 && b.retIsNil(x.Results[0])
-			if s.depth > 0 {
-				b.problem("return inside inlined helper not at top level")
+			if n := len(s.stack); n > 0 {
+				// return from an inlined helper: bind its results and continue in the caller
+				fr := s.stack[n-1]
+				s.stack = s.stack[:n-1]
+				for ri, rv := range x.Results {
+					var target ssa.Value
+					if len(x.Results) == 1 {
+						target = fr.call
+					} else {
+						target = resultOf(fr.call, ri)
+					}
+					if target == nil {
+						continue
+					}
+					if cv, ok := b.evalConstIn(s, fr, rv); ok {
+						s.env[target] = cv
+					}
+				}
+				b.walk(fr.retBlk, fr.retIdx, s, pre)
+				return
 			}
+			retNil := len(x.Results) == 1 && b.retIsNil(x.Results[0])
 			b.finish(s, "return", retNil)
 			return
 		case *ssa.Panic:
@@ -664,16 +748,55 @@ func (b *modelBuilder) condDesc(core ssa.Value) string {
 
 var benignCallPrefixes = []string{"log.", "fmt.", "errors.", "strconv.", "net.JoinHostPort", "time."}
 
-// call records the effect of a call; returns false to abandon the path (problem recorded).
-func (b *modelBuilder) call(x *ssa.Call, s *mstate) bool {
+// evalConstIn evaluates v in the scope of a frame that was just popped.
+func (b *modelBuilder) evalConstIn(s *mstate, fr *frame, v ssa.Value) (constant.Value, bool) {
+	s.stack = append(s.stack, fr)
+	cv, ok := b.evalConst(s, v)
+	if !ok {
+		// a comparison computed in the helper (e.g. return p.state == want)
+		if bv, known := b.evalCond(s, v); known {
+			cv, ok = constant.MakeBool(bv), true
+		}
+	}
+	s.stack = s.stack[:len(s.stack)-1]
+	return cv, ok
+}
+
+// call records the effect of a call; ok=false abandons the path (problem recorded);
+// inlined=true means the walk went on inside the helper and the caller's loop must stop.
+func (b *modelBuilder) call(x *ssa.Call, s *mstate, blk *ssa.BasicBlock, idx int, pre bool) (ok bool, inlined bool) {
+	ok = b.call1(x, s)
+	if ok || b.pendingInline == nil {
+		b.pendingInline = nil
+		return ok, false
+	}
+	callee := b.pendingInline
+	b.pendingInline = nil
+	if len(s.stack) >= 2 {
+		b.problem("helper nesting deeper than 2 at %s", b.c.P.Pos(x.Pos()))
+		return false, false
+	}
+	fr := &frame{fn: callee, call: x, bind: map[*ssa.Parameter]ssa.Value{}, retBlk: blk, retIdx: idx + 1}
+	for i, p := range callee.Params {
+		if i < len(x.Call.Args) {
+			fr.bind[p] = b.res(s, x.Call.Args[i])
+		}
+	}
+	s.stack = append(s.stack, fr)
+	b.walk(callee.Blocks[0], 0, s, pre)
+	return true, true
+}
+
+func (b *modelBuilder) call1(x *ssa.Call, s *mstate) bool {
 	name := calleeName(x)
 	protoPkg := modPath + "/cmd/rdpgw/protocol"
 	switch {
 	case name == "(*"+protoPkg+".Tunnel).Read":
 		return true
 	case name == "(*"+protoPkg+".Tunnel).Write":
-		e := &Effect{Kind: "RESP", Instr: x, Val: arg(x, 0)}
-		bc, ok := strip(arg(x, 0)).(*ssa.Call)
+		wv := b.res(s, arg(x, 0))
+		e := &Effect{Kind: "RESP", Instr: x, Val: wv}
+		bc, ok := strip(wv).(*ssa.Call)
 		if !ok {
 			b.problem("Tunnel.Write of a value that is not a response builder call at %s", b.c.P.Pos(x.Pos()))
 			return false
@@ -701,13 +824,13 @@ func (b *modelBuilder) call(x *ssa.Call, s *mstate) bool {
 		s.path.Effects = append(s.path.Effects, e)
 		return true
 	case strings.HasPrefix(name, "net.Dial") || strings.HasPrefix(name, "(*net.Dialer).Dial"):
-		s.path.Effects = append(s.path.Effects, &Effect{Kind: "DIAL", Name: name, Args: x.Call.Args, Instr: x, Val: x})
+		s.path.Effects = append(s.path.Effects, &Effect{Kind: "DIAL", Name: name, Args: b.resAll(s, x.Call.Args), Instr: x, Val: x})
 		return true
 	}
 	// call through a Gateway callback field
 	if x.Call.StaticCallee() == nil && !x.Call.IsInvoke() {
 		if cb, ok := b.cbFieldOf(x.Call.Value); ok {
-			e := &Effect{Kind: "CHECK", Name: cb, Args: x.Call.Args, Instr: x, Val: x}
+			e := &Effect{Kind: "CHECK", Name: cb, Args: b.resAll(s, x.Call.Args), Instr: x, Val: x}
 			s.path.Effects = append(s.path.Effects, e)
 			if r0 := resultOf(x, 0); r0 != nil {
 				s.checkRes[r0] = e
@@ -758,7 +881,8 @@ func (b *modelBuilder) call(x *ssa.Call, s *mstate) bool {
 		s.path.Effects = append(s.path.Effects, &Effect{Kind: "CALL", Name: callee.Name(), Args: x.Call.Args, Instr: x, Val: x})
 		return true
 	}
-	return b.inline(x, callee, s)
+	b.pendingInline = callee
+	return false
 }
 
 // interesting: the function (transitively, first-party) reads/writes Processor.state,
@@ -796,13 +920,3 @@ func (b *modelBuilder) interesting(f *ssa.Function, seen map[*ssa.Function]bool)
 	return res
 }
 
-// inline explores a straight-line or branching helper in place (depth <= 2).
-// Supported: helpers whose every path returns; constant bool/int results are bound to the call value.
-func (b *modelBuilder) inline(x *ssa.Call, callee *ssa.Function, s *mstate) bool {
-	if s.depth >= 2 {
-		b.problem("helper nesting deeper than 2 at %s", b.c.P.Pos(x.Pos()))
-		return false
-	}
-	b.problem("helper %s touches protocol state; inlining is not supported by this model (call at %s)", callee.Name(), b.c.P.Pos(x.Pos()))
-	return false
-}
